@@ -8,6 +8,7 @@ R4 nobody overwrites the count with a plain store (shared with C08.R5)
 R5 references taken while listing a directory are paired with the entries the client actually learns of (shared with C08.R2)
 
 Linearizability itself (all interleavings) is NOT decided by this check.
+R1-entry-pairing (shared with C08.R1) a reference the client never received is given back on that inode
 """
 from pyfbr import core, vf
 from rules import common
@@ -155,3 +156,4 @@ META = {
     "note": "Linearizability over all interleavings is NOT decided: that needs schedule exploration (a different technique family). The rules "
             "detect the realistic ways of breaking the discipline (dropping the re-probe, replacing CAS by load/store, splitting the critical section).",
 }
+META["text"] += " " + 'Also: give-back of undelivered references on the right inode (C08.R1).'
